@@ -297,9 +297,26 @@ func modeWire(c *Ctx) {
 				continue
 			}
 			dg := &DocGen{Doc: c.Doc, Rng: rand.New(rand.NewSource(seed + int64(len(dr.Status))*31 + int64(dr.Status[0])))}
-			for i := 0; i < 10; i++ {
+			for i := 0; i < 11; i++ {
 				v := reflect.New(ri.T).Elem()
 				desc := map[string]any{}
+				if i == 10 {
+					// the zero value of the response struct: nil slices and
+					// maps, unset optionals - what a handler returns when it
+					// has nothing to report
+					if !dr.JSON || oasKind(dr.Schema) != "object" {
+						break
+					}
+					if f := v.FieldByName("Code"); f.IsValid() && f.Kind() == reflect.Int {
+						f.SetInt(500)
+					}
+					next = v
+					s := canon()
+					w := send("resp", pathFor(s.ps), s.q.Encode(), s.hd, validBody)
+					rec(fmt.Sprintf("%s|response|%s|zero-value", op.Key, dr.Status),
+						map[string]any{"status": w.Status, "headers": headerMap(w.Frozen), "body": canonJSON(w.Body.Bytes())})
+					break
+				}
 				if f := v.FieldByName("Code"); f.IsValid() && f.Kind() == reflect.Int {
 					code := []int{400, 500, 418, 503}[i%4]
 					f.SetInt(int64(code))
